@@ -106,6 +106,28 @@ CLAIMED = {
               "result; insensitivity to float rounding cannot be a theorem over rationals and is checked by a second stream with decimal "
               "fractional estimates (0.1+0.2 vs 0.3) judged by the exact characterisation over the decimals; purity by snapshot."),
         design='7 (C12)', technique='Lean 4 proof (forward/backward pass = ef / project length - tail) + differential correspondence + decimal-tie stream'),
+    'C13': dict(
+        text=("Three layers, three theorems, each for unbounded inputs. Text: Python's csv dialect (QUOTE_MINIMAL writer, the reader state "
+              "machine of _csv.c fed with the lines of a newline='\\n' file) is MODELLED, and C13_text proves that every matrix of strings - "
+              "delimiters, quotes, CR, LF, empty rows and fields included - is read back exactly as written; the model itself is validated "
+              "against the real csv module by a differential stream. Fields: C13_fields - reading a written file returns the records (None <-> "
+              "'', 'True', ';'-joined ids, header lookup by name), C13_bom - a byte-order mark on the first header cell is ignored, C13_fixpoint "
+              "- what was read back is reproduced by a further write/read cycle, hence byte-identical files. Structure: C13_structure - "
+              "hierarchy and sibling order of a forest of any depth survive the trip through (id, parent_id) rows when ids are unique. "
+              "Number/date formatting (str, repr, strftime/strptime) are Python built-ins outside the model. Tie: the model's file text must "
+              "equal the bytes write_csv produced, the model's reading and rebuilt forest must equal what read_csv produced; round trip, "
+              "fixpoint bytes and hand-written variants (BOM, permuted columns) are also judged on the real objects."),
+        design='7 (C13)', technique='Lean 4 proof (printer/parser round trip of a modelled csv dialect; forest rebuild) + differential correspondence'),
+    'C20': dict(
+        text=("Theorems about the model of TextTable and _Repr for all tables and sheets: C20_wide (every column is at least as wide as its "
+              "longest cell), C20_row_width / C20_aligned (ignoring colour codes every line has the same width, the sum of the column widths "
+              "plus two blanks per column), C20_lines (one line per row, joined by single line breaks, when there is at least one field), "
+              "C20_rows (one row per task shown: the given tasks and, with children on, all descendants), C20_indent (depth-first order, name "
+              "indented three blanks per level, None = empty), C20_links (linked ids, external marker iff owners differ, hidden root shown as "
+              "nothing), C20_unknown_field (empty cell). The model's sheet must equal the implementation's text character for character "
+              "(random WBSs, names None/long/non-ASCII, unknown and differently-cased fields, themes with too few colours, print_color); line "
+              "count, alignment, indentation, link columns and the usage table's one-line-per-day are judged on the implementation's text."),
+        design='7 (C20)', technique='Lean 4 proof (column-width and ANSI-stripping lemmas) + differential correspondence on the exact text'),
     'C14': dict(
         text=("Theorems C14_forward / C14_backward: for every WBS satisfying the structural invariants (forest stored on both ends, symmetric links; "
               "what C01 guarantees) and every resource set whose calendars do not raise, calc in the model ends in a schedule or RuntimeError - "
